@@ -218,7 +218,7 @@ def run(tier: str) -> int:
     jobs_tlc, names = [], []
     try:
         rec = gen_cfg("cfg/Recursion.tmpl", dict(Templates='{"t1","t2"}',
-                                                 Depths="{0, 12, 29}" if tier == "quick" else "{0, 5, 12, 20, 29}", Extra="INVARIANT Emit"), "rec")
+                                                 Depths="{0, 12, 29}" if tier == "quick" else "{0, 5, 12, 29}", Extra="INVARIANT Emit"), "rec")
         live = gen_cfg("cfg/Recursion.tmpl", dict(Templates='{"t1","t2"}', Depths="{0, 12}", Extra="PROPERTY Terminates"), "reclive")
         jobs_tlc = [("Recursion", rec, dict(workers=1, timeout=3000)), ("Recursion", live, dict(workers=4, timeout=900))]
         for nm, (alpha, extra) in c21.ALPHABETS.items():
@@ -260,7 +260,7 @@ def run(tier: str) -> int:
                 break
     # stack window: graphs whose cut-off is the interpreter's stack, replayed from every caller depth of a period
     win = [c for c in rrec.emitted if c.get("cut") == "stack"]
-    capw = 24 if tier == "quick" else 72
+    capw = 24 if tier == "quick" else 40
     if len(win) > capw:
         win = rnd.sample(win, capw)
     for case, (tmpl, bad) in zip(win, par.pmap(replay_window, win, chunk=2)):
